@@ -164,6 +164,7 @@ class Ans:
             self.exit = items[5 + n][1]
         if len(items) > 6 + n:
             self.margin = bits_f64(items[6 + n][1])
+        self.pivot = bits_f64(items[7 + n][1]) if len(items) > 7 + n else None
 
 # ----------------------------------------------------------------------------- model trace cache
 PENDING = []        # cases whose oracle needs the model's ghost trace
@@ -230,21 +231,30 @@ def model_trace(case, tag, force=False):
             ensure_traces(tag)
     return TRACE.get(case.line)
 
+PIVOT_BREAKDOWN = 1e-10   # a scale-free pivot |<u,v>|/(||u|| ||v||) below this is a (near-)breakdown of the bi-Lanczos process
+                          # (calibration: failing runs <= 1e-16, 98% of healthy runs >= 1e-7)
+
 def breakdown_key(case, decoded, tag):
-    """cause of a failed run as decided by the MODEL's trace (only when model and implementation agree on
-    the outcome): an exact Lanczos breakdown.  Keys of the `open:` entries of KNOWN_FINDINGS.txt."""
+    """Cause of a failed / slow run as decided by the MODEL's trace, and only when the model reproduces the
+    implementation's answer bit for bit (so a mutated implementation can never hide behind the entry): an exact
+    breakdown (a `== 0` exit, or BiCG's 0/0 = NaN) or a near-breakdown (smallest pivot <= 1e-10) of the
+    look-ahead-free bi-Lanczos process.  Keys of the `open:` entries of KNOWN_FINDINGS.txt."""
     a = Ans(decoded)
     tr = model_trace(case, tag, force=True)
-    if tr is None or tr.panic or a.panic or tr.ok or a.ok:
+    if tr is None or tr.panic or a.panic or tr.ok != a.ok:
         return None
-    if f64_bits(tr.err) != f64_bits(a.err):
+    if a.ok:
+        if tr.k != a.k or [f64_bits(v) for v in tr.x] != [f64_bits(v) for v in a.x]:
+            return None
+    elif f64_bits(tr.err) != f64_bits(a.err):
         return None
     sv = case.meta["solver"]
-    if sv in ("bicg1", "bicg2") and tr.exit == 2 and tr.err != tr.err:
-        return "solve_bicg/breakdown-nan"
-    if sv == "qmr" and tr.exit is not None and 20 <= tr.exit <= 25:
+    near = tr.pivot is not None and tr.pivot <= PIVOT_BREAKDOWN
+    if sv in ("bicg1", "bicg2") and (near or (not a.ok and tr.exit == 2 and tr.err != tr.err)):
+        return "solve_bicg/breakdown"
+    if sv == "qmr" and (near or (tr.exit is not None and 20 <= tr.exit <= 25)):
         return "solve_qmr/breakdown"
-    if sv == "bicgstab" and tr.exit in (10, 11):
+    if sv == "bicgstab" and (near or tr.exit in (10, 11)):
         return "solve_bicgstab/breakdown"
     return None
 
